@@ -159,6 +159,7 @@ class IsCancelledTask(Task):
         I.ob(f"{P}/no-exception", kind == "return", detail=f"{kind}:{val!r}")
         if kind != "return":
             return
+        val = I.as_bool(val)
         ent = cm._find(I, mid)
         was_member = len(cm.deletes) == 1
         I.ob(f"{P}/reports-cancelled-exactly-when-a-cancel-for-this-message-id-is-pending",
